@@ -145,6 +145,11 @@ def replay(case, scratch):
                 i = op[1] - 1
                 owner = case["owners"][i]
                 r = t.cmd(owner, op="collect", id=t.res[i]["key"])
+            elif kind == "vanish":
+                try:
+                    os.unlink(t.res[op[1] - 1]["path"])
+                except OSError:
+                    pass
             elif kind == "die":
                 t.cmd(op[1], op="die", how=op[2], timeout=10)
                 pid = t.pids[op[1]]
